@@ -201,6 +201,36 @@ def same_register_parts_rule(ctx, R, L, sem):
             a, b = (a + b) & 0xff, a
         lo, hi = (a, b) if a_is_al else (b, a)
         return (EAX0 & 0xffff0000) | (hi << 8) | lo
+    # one register named twice: xchg r, r leaves it unchanged, xadd r, r doubles it (the destination is written last), at 32, 16 and 8 bits
+    ax = TSlice(eax, 0, 16)
+    for name in ('xchg', 'xadd'):
+        f = L.mnemo_func.get(name)
+        if f is None:
+            raise AnalysisError('ia32_sem.mnemo_func has no %r' % name)
+        for label, opnd, lo_, w_ in (('eax, eax', eax, 0, 32), ('ax, ax', ax, 0, 16), ('al, al', al, 0, 8), ('ah, ah', ah, 8, 8)):
+            inst = 'same:%s %s' % (name, label)
+            val = {'eax': EAX0, 'cf': 0, 'pf': 0, 'af': 0, 'zf': 0, 'nf': 0, 'of': 0}
+            twin = TSlice(eax, opnd.start, opnd.stop) if getattr(opnd, 'kind', None) == 'Slice' else opnd
+            try:
+                outs = lifted_effect(I, f, [opnd, twin], val)
+            except DoubleWrite as e:
+                R.violation(inst, 'same:%s' % name, '%s assigns the register %s twice in one instruction: which value survives depends on the order of the two assignments' % (inst[5:], e),
+                            where(sem, f.node), witness='0f c1 c0 (xadd eax, eax)')
+                continue
+            except LiftUnknown as e:
+                raise AnalysisError('%s is outside the modelled subset: %s' % (name, e))
+            except Refuse as e:
+                raise AnalysisError('%s: lifted assignments outside the evaluable subset: %s' % (name, e))
+            msk = ((1 << w_) - 1) << lo_
+            old_ = (EAX0 & msk) >> lo_
+            new_ = old_ if name == 'xchg' else (2 * old_) & ((1 << w_) - 1)
+            want = (EAX0 & ~msk) | (new_ << lo_)
+            bad = [got['eax'] for got in outs if got['eax'] != want]
+            if bad:
+                R.violation(inst, 'same:%s' % name, '%s with eax = %#x gives eax = %#x; IA-32: %#x (the destination is written last: xadd r, r doubles r)' % (inst[5:], EAX0, bad[0], want),
+                            where(sem, f.node), witness='0f c1 c0 (xadd eax, eax)')
+            else:
+                R.ok(inst, sample='%s: eax %#x -> %#x' % (inst[5:], EAX0, want))
     for name in ('xchg', 'xadd'):
         f = L.mnemo_func.get(name)
         if f is None:
@@ -1025,7 +1055,7 @@ def run(ctx, report):
     R16 = report.rule('C04.D16', 'lifting is a function of the instruction: no function of the lifter mutates a module-level table or a local bound to one (shared with C12.D7)', floor=250)
     from .c12 import shared_table_rule
     shared_table_rule(R16, [ctx.mod('ia32_sem'), ctx.mod('emul_helper')])
-    R11 = report.rule('C04.D11', 'xchg / xadd on two parts of one register (al, ah) write both parts (lifted assignments evaluated)', floor=4)
+    R11 = report.rule('C04.D11', 'xchg / xadd on two parts of one register (al, ah) write both parts, and on one register named twice write it once with the value the processor writes last (lifted assignments evaluated)', floor=10)
     same_register_parts_rule(ctx, R11, L, sem)
     report.analysed['effects_ref_mnemonics'] = len(eff)
 
